@@ -173,6 +173,28 @@ def run(ctx):
                 ctx.violation("descendants", "descendants does not visit every node of the document once, like nodes_between(0, size)",
                               {"schema": info.name, "doc": d.to_json(), "got": str(dd_)[:300], "nodes": n_open})
             ctx.count("whole_node_calls")
+            # text_content of a text node is its text; positions just outside the document do not resolve (ValueError, never
+            # anything else); block_range() with no argument is block_range(self), and its two arguments may come in either order
+            tn = next((n for n in [d.first_child.first_child if d.child_count and not d.first_child.is_leaf else None] if n is not None and n.is_text), None)
+            if tn is not None and tn.text_content != tn.text:
+                ctx.violation("text_content", "text_content of a text node is not its text", {"schema": info.name, "doc": d.to_json()})
+            for bad_pos in (size + 1, -1):
+                stb, rb = outcome(lambda: d.resolve(bad_pos))
+                ctx.count("resolve-outside:" + stb)
+                if stb != "valueError":
+                    ctx.violation("resolve-outside", f"resolving position {bad_pos} of a document of size {size} did not raise a ValueError: {stb} {str(rb)[:80]}",
+                                  {"schema": info.name, "doc": d.to_json(), "pos": bad_pos})
+            if aligned:
+                pa, pb = rng.choice(sorted(aligned)), rng.choice(sorted(aligned))
+                def brs():
+                    ra, rb_ = d.resolve(pa), d.resolve(pb)
+                    enc = lambda x: None if x is None else [x.depth, x.start, x.end]
+                    return [enc(ra.block_range()), enc(ra.block_range(ra)), enc(ra.block_range(rb_)), enc(rb_.block_range(ra))]
+                stq, q = outcome(brs)
+                ctx.count("block_range-defaults")
+                if stq != "ok" or q[0] != q[1] or q[2] != q[3]:
+                    ctx.violation("block_range", "block_range() is not block_range(self), or block_range depends on the order of its two positions",
+                                  {"schema": info.name, "doc": d.to_json(), "from": pa, "to": pb, "got": str(q)[:300]})
             # ---- ranges: nodes_between / text_between / range_has_mark
             al = sorted(aligned)
             for _ in range(ctx.budget(25, 80)):
